@@ -112,3 +112,20 @@ package bft
 // encoding - header, payload hashes, aggregate signature AND signer bitmap - not a digest of the signed payload alone.
 //@ func (*BFT).AddPartialQC
 //@   ensures[identity] isnil(err) ==> indom(b.PartialQCs, hexOf(pbBytes(m.Qc))) && b.PartialQCs[hexOf(pbBytes(m.Qc))] == m.Qc
+
+// ---- C01: a lock survives every restart of the height that is not a NEW height ----------------------------------------
+// The reset handler of the consensus loop keeps the locks exactly when the reset is a root-chain (committee) update -
+// whatever the round, and whether or not this chain is its own root: a replica locks in round 0 too, and another
+// validator may already have committed the locked block. NewHeight with keepLocks leaves the lock (HighQC) alone.
+//@ func (*BFT).Start$2
+//@   callsite NewHeight requires[keeplocks] len(callee.keepLocks) == 1 && callee.keepLocks[0] == resetBFT.IsRootChainUpdate
+//@ func (*BFT).NewHeight
+//@   ensures[kept] old(len(keepLocks)) >= 1 && old(keepLocks[0]) ==> b.HighQC == old(b.HighQC)
+
+// ---- C14: who is implicated by a piece of evidence ---------------------------------------------------------------------
+// Signer bitmaps are positional. The two certificates of an evidence item are verified for the committee of the
+// evidence's OWN root height, and the double signers are read off the two bitmaps against that very committee - never
+// against the node's current one (bit i names a different validator there).
+//@ func (*BFT).ProcessDSE
+//@   callsite Check requires[evidencecommittee] arg1 == vs
+//@   callsite GetDoubleSigners requires[verifiedcommittee] arg2 == vs
